@@ -17,7 +17,21 @@ SEV_NAMES = ["Error", "Warning", "Custom", "Note"]
 SEV_DEF = {"Custom": {"type": "error"}, "Note": {"type": "warning"}}
 
 
-class ConfRule(rule.Rule):
+class _Logged:
+    """what a concrete rule would supply: nothing to look at, but every analysis is recorded"""
+
+    calllog = None
+
+    def _get_tokens_of_interest(self, oFile):
+        if self.calllog is not None:
+            self.calllog.append(self.get_unique_id())
+        return []
+
+    def _analyze(self, lToi):
+        pass
+
+
+class ConfRule(_Logged, rule.Rule):
     def __init__(self, uid_name, uid_num, groups):
         super().__init__()
         self.name = uid_name
@@ -29,7 +43,7 @@ class ConfRule(rule.Rule):
         self.configuration.append("case")
 
 
-class rule_001(rule.Rule):
+class rule_001(_Logged, rule.Rule):
     """a localized rule written the way docs/localizing.rst shows: the name is assigned after the base constructor ran,
     so unique_id (computed in the constructor) and get_unique_id() differ"""
 
@@ -118,7 +132,7 @@ class K12a(Harness):
         oConfig.severity_list = severity.create_list(dconf)
         oFile = StubFile()
         oFile.filename = FNAME
-        rl = make_rule_list([r, r2], oFile)
+        rl = make_rule_list([r, r2], oFile, real_init=attr in ("phase", "disable"))
         rl.oSeverityList = oConfig.severity_list
         AR.configure_rules(oConfig, rl, dconf, 0, FNAME)
         # expected: highest-priority level that mentions the attribute
@@ -156,6 +170,18 @@ class K12a(Harness):
             clauses.append(("other_rule_severity", r2.severity is not None and Eq(r2.severity.name, want2)))
         else:
             clauses.append(("other_rule_value", Eq(getattr(r2, attr), want2)))
+        if attr in ("phase", "disable"):
+            # ... and the effective value is the one the engine acts on: the real check_rules / fix schedule both rules by it
+            ph = {r: want if attr == "phase" else 2, r2: want2 if attr == "phase" else 2}
+            off = {r: want if attr == "disable" else False, r2: want2 if attr == "disable" else False}
+            expect = [x.get_unique_id() for k in range(1, 8) for x in (r, r2) if ph[x] == k and not off[x]]
+            log = []
+            r.calllog = r2.calllog = log
+            rl.check_rules(bAllPhases=True)
+            clauses.append(("check_schedules_by_effective_value", log == expect))
+            del log[:]
+            rl.fix(7)
+            clauses.append(("fix_schedules_by_effective_value", log == expect))
         return clauses
 
     signature = staticmethod(_sig)
